@@ -88,7 +88,7 @@ def run(pid, tier, seed, scratch, replay, t0):
             broken.append({"what": "generated fact table", "error": repr(e)})
     pf = {"obligations": 0, "discharged": 0, "print_assumptions": [], "all_closed": False,
           "theorems": [], "ok": False}
-    if ok_b:
+    if True:
         pf = lib.check_property_file(pid, scratch, extra_q=extra_q)
         if not pf["ok"]:
             broken.append({"what": "proof obligation", "theorem": pf.get("failing_theorem"),
